@@ -11,7 +11,7 @@ Proof. intros H. apply app_inj_tail in H. exact H. Qed.
 
 Section Runs.
   Variable U : list block.
-  Hypothesis U_id : forall b, In b U -> bid b <> 0 /\ bparent b <> 0 /\ bid b <> bparent b.
+  Hypothesis U_id : forall b, In b U -> bid b <> 0 /\ bid b <> bparent b.
   Hypothesis U_uniq : forall x y, In x U -> In y U -> bid x = bid y -> x = y.
   Hypothesis U_up : forall x y, In x U -> In y U -> bparent x = bid y -> bnum y < bnum x.
 
@@ -40,7 +40,7 @@ Section Runs.
     pose proof (linked_sorted _ _ Hl HU) as HS. cbn [linked] in Hl. destruct Hl as [Hp _].
     pose proof (Forall_inv HU) as Hz. pose proof (Forall_inv_tail HU) as HU'. cbn beta in Hz. rewrite Forall_forall in HU'.
     destruct Hy as [Hy|Hy].
-    - rewrite <- Hy in E. apply (proj2 (proj2 (U_id z Hz))). rewrite E, Hp. reflexivity.
+    - rewrite <- Hy in E. apply (proj2 (U_id z Hz)). rewrite E, Hp. reflexivity.
     - assert (Hp' : bparent z = bid y) by (rewrite Hp, E; reflexivity).
       pose proof (U_up z y Hz (HU' y Hy) Hp') as H1.
       inversion HS as [|? ? _ Hall]. rewrite Forall_forall in Hall. specialize (Hall y Hy). unfold blt in Hall. lia.
